@@ -214,10 +214,11 @@ def _cmp(got, exp, tol, scale):
     return None, err
 
 
-def make_session(M, ch, rng, sysd, mats_shared, sid, st):
+def make_session(M, ch, rng, sysd, mats_shared, sid, st, reuse=None, pre_use=False):
     s = Session()
     s.id = sid
     s.sys = sysd
+    s.life = 0 if reuse is None else reuse.life + 1
     nt = 1 + ch.weighted([1, 1, 2, 3, 3, 3, 3, 2, 2, 1, 1, 1], "nt")
     s.nt = nt
     n = sysd.n
@@ -236,9 +237,16 @@ def make_session(M, ch, rng, sysd, mats_shared, sid, st):
     s.ic = ["zero", "d0v0", "static_ic"][ic]
     # the system under test shares its matrix objects with other sessions;
     # the reference is built from pristine private copies
-    with _Sut("solver construction", session=sid):
-        s.ts = build_solver(M, sysd, mats_shared)
-    s.ref = build_solver(M, sysd, copy.deepcopy(mats_shared))
+    if reuse is None:
+        with _Sut("solver construction", session=sid):
+            s.ts = build_solver(M, sysd, mats_shared)
+        s.ref = build_solver(M, sysd, copy.deepcopy(mats_shared))
+    else:
+        # a second co-simulation on the same solver instance (and the same reference)
+        s.ts, s.ref = reuse.ts, reuse.ref
+        st.fault("instance_reused")
+    if pre_use:
+        same_instance_call(M, ch, rng, s, st, "before generator()")
     pc = getattr(s.ref, "pc", None)
     s.tol = 1e-10
     if sysd.kind == "cplx_eig" and isinstance(pc, SimpleNamespace) and hasattr(pc, "ur"):
@@ -265,6 +273,43 @@ def make_session(M, ch, rng, sysd, mats_shared, sid, st):
     s.prev_kind = None
     s.buf = np.zeros(n)
     return s
+
+
+def same_instance_call(M, ch, rng, s, st, when):
+    """The caller uses the same solver instance for something else (a batch
+    solve, a frequency-domain solve) before or in the middle of a generator
+    session; both results must be right and the session must not notice."""
+    sysd = s.sys
+    n = sysd.n
+    where = f"{sysd.kind}/order{sysd.order}"
+    can_f = sysd.kind in ("unc", "cplx_eig")
+    if can_f and ch.flip(1, 2, "bystander_is_fsolve"):
+        freq = np.sort(rng.uniform(0.5, 0.3 / sysd.h, 3))
+        frc = rng.standard_normal((n, 3))
+        with _Sut("fsolve on the same instance", session=s.id, when=when):
+            got = s.ts.fsolve(frc.copy(), freq.copy())
+        exp = s.ref.fsolve(frc.copy(), freq.copy())
+        st.fault("same_instance_fsolve")
+        names = ("d", "v", "a")
+        what = "fsolve"
+        tol = max(s.tol if hasattr(s, "tol") else 1e-9, 1e-9)
+    else:
+        k = 2 + ch.draw(4, "bystander_nt")
+        frc = rng.standard_normal((n, k))
+        with _Sut("tsolve on the same instance", session=s.id, when=when):
+            got = s.ts.tsolve(frc.copy())
+        exp = s.ref.tsolve(frc.copy())
+        st.fault("same_instance_tsolve")
+        names = ("d", "v", "a")
+        what = "tsolve"
+        tol = 1e-9
+    for nm in names:
+        g = np.asarray(getattr(got, nm))
+        e = np.asarray(getattr(exp, nm))
+        sc = max(float(np.max(np.abs(e))) if e.size else 0.0, 1e-300)
+        why, _ = _cmp(g, e, tol, sc)
+        if why is not None:
+            raise Violation("same_instance_batch_wrong", f"{where}:{what}.{nm}", session=s.id, when=when, reason=why)
 
 
 def draw_force(ch, rng, n, ctx, tag):
@@ -471,6 +516,8 @@ def _run(M, ch, tr, st, rng):
     w_f2x = [1, 0, 2][ch.draw(3, "w_f2x")]
     nops = [12, 4, 25, 40][ch.weighted([4, 2, 3, 1], "nops")]
 
+    same_inst = ch.flip(1, 3, "same_instance_calls")
+    reuse_inst = ch.flip(1, 3, "reuse_instance")
     systems = [draw_system(ch, rng)]
     if nsess == 2:
         systems.append(systems[0] if same_system else draw_system(ch, rng))
@@ -480,17 +527,46 @@ def _run(M, ch, tr, st, rng):
         key = id(sysd)
         if key not in shared_mats:
             shared_mats[key] = (sysd.m, sysd.b, sysd.k)
-        s = make_session(M, ch, rng, sysd, shared_mats[key], sid, st)
+        s = make_session(M, ch, rng, sysd, shared_mats[key], sid, st, pre_use=same_inst and ch.flip(1, 2, "pre_use"))
         if s is None:
             st.rendered.update(skipped="ill-conditioned eigenvectors", system=sysd.desc)
             return
         sessions.append(s)
     st.rendered.update(
         sessions=[dict(system=s.sys.desc, nt=s.nt, ic=s.ic, tol=s.tol) for s in sessions],
-        knobs=dict(buffer_reuse=buffer_reuse, closed_loop=closed_loop, weights=[w_adv, w_redo, w_jump, w_addon, w_f2x], nops=nops, same_matrices=same_system),
+        knobs=dict(buffer_reuse=buffer_reuse, closed_loop=closed_loop, weights=[w_adv, w_redo, w_jump, w_addon, w_f2x], nops=nops, same_matrices=same_system, same_instance_calls=same_inst, reuse_instance=reuse_inst),
     )
+    allops = []
+    st.rendered["ops"] = allops
+    knobs = (w_adv, w_redo, w_jump, w_addon, w_f2x, buffer_reuse, closed_loop, same_inst)
+    steps = drive(M, ch, tr, st, rng, sessions, nops, knobs, allops)
+    if reuse_inst:
+        # second life: new co-simulations on the same solver instances
+        second = []
+        for s in sessions:
+            s2 = make_session(M, ch, rng, s.sys, None, s.id, st, reuse=s)
+            s2.tol = s.tol
+            second.append(s2)
+        allops.append("-- finalize; generator() again on the same instances --")
+        steps += drive(M, ch, tr, st, rng, second, max(3, nops // 2), knobs, allops)
+        sessions = sessions + second
+    st.steps = steps
+    hist = " ".join(allops)
+    st.nontrivial = any(k in hist for k in ("[redo]", "[jump_back]", "[addon]", "f2x_probe"))
+    st.distinct["histories"] = tr.shape_digest()
+    worst = max((s.maxerr / s.tol for s in sessions), default=0.0)
+    st.rendered["worst_error_over_tolerance"] = worst
+    st.maximum("worst_error_over_tolerance", worst)
     for s in sessions:
-        tr.shape("session", s.sys.kind, s.sys.order, s.sys.nrb, s.sys.nel, s.sys.nrf, s.sys.desc["block_order"], s.sys.desc["mkind"], s.nt, s.ic)
+        st.maximum("worst_error_x_scale:" + s.sys.kind, s.maxerr)
+    if worst > 1e-2:
+        st.probe("error_above_1pct_of_tolerance")
+
+
+def drive(M, ch, tr, st, rng, sessions, nops, knobs, allops):
+    w_adv, w_redo, w_jump, w_addon, w_f2x, buffer_reuse, closed_loop, same_inst = knobs
+    for s in sessions:
+        tr.shape("session", s.sys.kind, s.sys.order, s.sys.nrb, s.sys.nel, s.sys.nrf, s.sys.desc["block_order"], s.sys.desc["mkind"], s.nt, s.ic, s.life)
         tr.ev("mats", s.sys.b, s.sys.k, s.Fm[:, 0])
         if s.nt == 1:
             st.fault("nt_1")
@@ -500,8 +576,6 @@ def _run(M, ch, tr, st, rng):
             st.fault("rb_only")
         if s.sys.cplx:
             st.fault("complex_coefficients")
-    allops = []
-    st.rendered["ops"] = allops
     last_sid = None
     steps = 0
     for _ in range(nops):
@@ -513,6 +587,10 @@ def _run(M, ch, tr, st, rng):
             st.fault("two_sessions_interleaved")
         last_sid = s.id
         other = next((o for o in sessions if o is not s), None)
+        if same_inst and ch.flip(1, 6, "bystander_now"):
+            same_instance_call(M, ch, rng, s, st, f"mid-session after {len(s.ops)} sends")
+            allops.append(f"s{s.id}: batch/frequency solve on the same instance")
+            check_after_send(s, f"{s.sys.kind}/order{s.sys.order}") if s.last >= 0 and hasattr(s.ts, "_force") else None
         kinds = []
         weights = []
         if s.last + 1 < s.nt:
@@ -544,17 +622,7 @@ def _run(M, ch, tr, st, rng):
             steps += 1
     for s in sessions:
         finalize(M, s, st, tr)
-    st.steps = steps
-    hist = " ".join(allops)
-    st.nontrivial = any(k in hist for k in ("[redo]", "[jump_back]", "[addon]", "f2x_probe"))
-    st.distinct["histories"] = tr.shape_digest()
-    worst = max((s.maxerr / s.tol for s in sessions), default=0.0)
-    st.rendered["worst_error_over_tolerance"] = worst
-    st.maximum("worst_error_over_tolerance", worst)
-    for s in sessions:
-        st.maximum("worst_error_x_scale:" + s.sys.kind, s.maxerr)
-    if worst > 1e-2:
-        st.probe("error_above_1pct_of_tolerance")
+    return steps
 
 
 RULE = (
@@ -582,5 +650,6 @@ ASSUMPTIONS = [
 EXPECTED_FAULTS = [
     "redo_same_force", "redo_new_force", "jump_back_1", "jump_back_far", "addon", "addon_then_advance", "addon_then_redo",
     "redo_then_advance", "addon_order0", "buffer_reuse", "closed_loop_force", "two_sessions_interleaved", "nt_1", "rf_only",
-    "rb_only", "static_ic", "complex_coefficients", "f2x_probe", "addon_twice",
+    "rb_only", "static_ic", "complex_coefficients", "f2x_probe", "addon_twice", "instance_reused", "same_instance_tsolve",
+    "same_instance_fsolve",
 ]
